@@ -138,6 +138,20 @@ func oracleC14(rep *report, r *rng) {
 		got2, _ := calcOn(name, buf)
 		if got2 != got {
 			rep.fail(failure{Oracle: "calc-repeat", Type: name, What: fmt.Sprintf("second call on the same buffer gave %#x, first %#x", got2, got), Input: in})
+			return
+		}
+		// the same bytes in buffers with other histories (stale bytes beyond the end, reset and rewritten, truncated)
+		hs := calcHistories[1:]
+		if len(data) > 64 {
+			hs = hs[rep.Evaluations%len(hs) : rep.Evaluations%len(hs)+1]
+		}
+		for _, h := range hs {
+			hb := calcBuffer(data, h)
+			if got3, ok3 := calcOn(name, hb); ok3 && got3 != want {
+				in["buffer_history"] = h
+				rep.fail(failure{Oracle: "calc-history", Type: name, What: fmt.Sprintf("the same bytes in a buffer that is %s give %#x, reference %#x", h, got3, want), Input: in})
+				return
+			}
 		}
 	}
 	for _, a := range algNames {
@@ -232,8 +246,8 @@ func specReadFixed(x []byte, pad byte, left bool) []byte {
 func init() { oracleTable["C13"] = oracleC13 }
 
 func oracleC13(rep *report, r *rng) {
-	rep.Rule = "WriteFixedString[WithPadding] / ReadFixedString[TrimPadding] and their list forms x widths 0..40 x all 256 pad bytes (and runes above 255) x both sides x texts (empty, short, exact, over-long, all-pad, pad inside / other side, NUL, >=0x80, split UTF-8); compared with an independent 10-line specification; distinct = distinct (width,pad,side,text)"
-	widths := []int{0, 1, 2, 3, 4, 5, 6, 7, 8, 10, 12, 16, 20, 32, 40}
+	rep.Rule = "WriteFixedString[WithPadding] / ReadFixedString[TrimPadding] and their list forms x widths 0..40 and 64..1025 (around multiples of 256) x all 256 pad bytes (and runes above 255) x both sides x texts (empty, short, exact, over-long, all-pad, pad inside / other side, NUL, >=0x80, split UTF-8); compared with an independent 10-line specification; distinct = distinct (width,pad,side,text)"
+	widths := []int{0, 1, 2, 3, 4, 5, 6, 7, 8, 10, 12, 16, 20, 32, 40, 64, 200, 255, 256, 257, 300, 512, 513, 1000, 1025}
 	oneW := func(n int, pad int, left bool, s []byte, def bool) {
 		if rep.failed() {
 			return
